@@ -61,9 +61,16 @@ Check (C11_quiescent_nothing_owed :
 Check (C11_at_most_one_answer :
   forall (c : cfg) (s : st) (o : op) (s' : st) (ev : list uev) (cl : list call) (q : peer),
     step c s o = Some (s', ev, cl) -> (length (answers q ev) <= 1)%nat).
-Check (C11_open_answered_refuted :
-  exists (c : cfg) (ops : list op) (s : st) (owed : peer -> bool),
-    ledger c init (fun _ => false) ops = Some (s, owed) /\ owed 0 = true /\ obligation s 0 = false).
+Check (C11_no_dead_substream_id :
+  forall (c : cfg) (s : st), reachable c s ->
+    (forall p x, (ps s p = Some (OutInit x) \/ exists d i, ps s p = Some (Validating d (OInit x) i)) -> In (x, p) (spend s)) /\
+    (forall x q, In (x, q) (pend s) -> In (x, q) (spend s))).
+Check (C11_open_answered_before_fix_refuted :
+  exists (c : cfg) (pre : list op) (s s' : st),
+    exec c init pre = Some s /\ ledger_env c init pre = true /\ hopen s 0 = false /\
+    ps s 0 = Some (Closed (Some 0)) /\ pend_find 0 (pend s) = None /\ spend s = [] /\
+    on_open_old c s 0 = Some (s', [], []) /\ in_progress (ps s' 0) = true /\ obligation s' 0 = false /\
+    exists s2, on_open c s 0 = Some (s2, [], [COpen 0 1]) /\ obligation s2 0 = true).
 Check (C11_open_answered_class3_refuted :
   exists (c : cfg) (ops : list op) (s : st) (owed : peer -> bool),
     ledger c init (fun _ => false) ops = Some (s, owed) /\ owed 0 = true /\ in_progress (ps s 0) = false).
